@@ -55,6 +55,9 @@ def node_array(sg):
                 if F(float(f32)) != v:
                     raise ValueError('field value %s not exactly representable in float32' % v)
                 arr[r, c, k] = f32
+    # non-finite "no data" values written into chosen nodes (all four fields)
+    for (r, c, v) in sg.get('poison', []):
+        arr[r, c, :] = np.float32(v)
     return arr
 
 
